@@ -2,7 +2,7 @@ from .core import BASE_TRUST, REPO
 
 META = {
     "category": "proof",
-    "text": "Lean 4 theorems over a model of the cursor state machine (all row lists, pointers, int64 offsets and operation histories): pointer invariant, exact positioning of FETCH, WHILE IN visits every row once in order, COUNT / IS OPEN / IS IN RANGE agree with the state, closed / reopened / undeclared cursors are errors, rows handed out between OPEN and CLOSE are those of the OPEN-time result. The arithmetic of (*Cursor).Fetch / IsInRange / Count is regenerated from lib/query/cursor.go on every run and proved equal to the model, and so are Cursor.Open / Close / IsOpen / Pointer, CursorMap.Declare / AddPseudoCursor / Dispose and evalCursorStatus (Lean definitions proved equal to the model's open / close / status / declare / dispose for every state), the whole statement skeleton of WhileInCursor, the delegating CursorMap methods, the strings.ToUpper key helpers, the constructors and the block walks of ReferenceScope (effect lists compared with hand-reviewed Ref/CursorOps.lean), and the fact that WhileInCursor looks the cursor up by name inside its loop (processor.go, query.go, eval.go, reference_scope.go); the model has blocks (innermost-first lookup) and WHILE IN with a body, with theorems that a disposed / closed cursor ends the loop with the error and that every row handed to the body comes from the cursor the name denotes at that moment; the rest is tied by a differential run of the real processor (SQL text) against the compiled model, with direct law checks. Exact positioning (fetch_spec) is proved in full for every int64 offset; the int64 overflow of FETCH RELATIVE (finding F9, fixed in /repo 63b833c) stays under watch as harness law fetch_spec_relative_overflow",
+    "text": "Lean 4 theorems over a model of the cursor state machine (all row lists, pointers, int64 offsets and operation histories): pointer invariant, exact positioning of FETCH, WHILE IN visits every row once in order, COUNT / IS OPEN / IS IN RANGE agree with the state, closed / reopened / undeclared cursors are errors, rows handed out between OPEN and CLOSE are those of the OPEN-time result. The arithmetic of (*Cursor).Fetch / IsInRange / Count is regenerated from lib/query/cursor.go on every run and proved equal to the model, and so are Cursor.Open / Close / IsOpen / Pointer, CursorMap.Declare / AddPseudoCursor / Dispose and evalCursorStatus (Lean definitions proved equal to the model's open / close / status / declare / dispose for every state), the whole statement skeleton of WhileInCursor, the delegating CursorMap methods, the strings.ToUpper key helpers, the constructors and the block walks of ReferenceScope (effect lists compared with hand-reviewed Ref/CursorOps.lean), the lock discipline of every function of cursor.go (every control-flow path: Lock followed by an explicit or deferred Unlock before every return), and the fact that WhileInCursor looks the cursor up by name inside its loop (processor.go, query.go, eval.go, reference_scope.go); the model has blocks (innermost-first lookup) and WHILE IN with a body, with theorems that a disposed / closed cursor ends the loop with the error and that every row handed to the body comes from the cursor the name denotes at that moment; the rest is tied by a differential run of the real processor (SQL text) against the compiled model, with direct law checks. Exact positioning (fetch_spec) is proved in full for every int64 offset; the int64 overflow of FETCH RELATIVE (finding F9, fixed in /repo 63b833c) stays under watch as harness law fetch_spec_relative_overflow",
     "design_ref": "DESIGN.md section 5, C16",
     "note": "trusted: Lean kernel (axioms propext, Classical.choice, Quot.sound only), the go/ast translator extract/cursorfetch (fails on any construct outside its subset), harness + driver; the view is a value in the model: that the implementation never aliases it with the table is what the differential run with interleaved DML checks; a Go slice has fewer than 2^63-1 records (hypothesis LenOK)",
     "technique": "Lean 4 machine-checked proof over a model whose integer arithmetic is regenerated from the Go source + differential correspondence with the Go implementation",
@@ -23,7 +23,8 @@ def run(run):
     run.regen("cursorloop", ["go", "-C", "extract/cursorfetch", "run", ".", "loop", str(q_dir / "processor.go"), str(q_dir / "query.go"),
                              str(q_dir / "reference_scope.go")], "Csvq/Gen/CursorLoop.lean")
     run.regen("cursorops", ["go", "-C", "extract/cursorfetch", "run", ".", "ops", str(q_dir / "cursor.go"), str(q_dir / "processor.go"),
-                            str(q_dir / "eval.go"), str(q_dir / "reference_scope.go")], "Csvq/Gen/CursorOps.lean")
+                            str(q_dir / "eval.go"), str(q_dir / "reference_scope.go"), str(q_dir / "query.go")], "Csvq/Gen/CursorOps.lean")
+    run.regen("cursorlocks", ["go", "-C", "extract/cursorfetch", "run", ".", "locks", str(q_dir / "cursor.go")], "Csvq/Gen/CursorLocks.lean")
     run.obligations_for(["Csvq.Props.C16"])
     run.stream("c16", 3000 if q else 300000)
     if not q:
@@ -31,7 +32,7 @@ def run(run):
             run.stream("c16", 200000, seed_offset=k)
     return run.finish(
         level="proof",
-        rule="scripted histories (RELATIVE +-2^63 from inside / before the result, empty result with every position, DML between OPEN and WHILE IN, clamping then PRIOR/NEXT, every error case) followed by random histories of DECLARE/OPEN/FETCH/WHILE IN (with BREAK, with DML on the underlying table inside the body)/CLOSE/DISPOSE/COUNT/IS [NOT] OPEN/IS [NOT] IN RANGE and structured programs (the life-cycle statements CLOSE / DISPOSE / shadowing DECLARE / re-OPEN / DISPOSE of the shadowing cursor and FETCH / status statements INSIDE a WHILE IN body — directly, in an IF block guarded by the iteration number, or in a function called from the body —, the loop itself inside a block that declares a shadowing cursor, and the same statements in a nested block at top level; the harness simulates blocks innermost-first with the loop fetching by name on every iteration and compares traces: laws while_in_disposed_is_error, while_in_closed_is_error, while_in_follows_current_binding, block_scoping) on up to 3 cursors (case-variant names) over 10 cursor sources (6 query shapes, cursors FOR a prepared statement without and with a placeholder — OPEN … USING k, also OPEN of an open one with another value —, a query with an observable side effect (@cnt := @cnt + 1 directly or through a user-defined function; law open_evaluates_once: one evaluation per accepted OPEN, none for a refused one), a cursor over a temporary view; the prepared statement / the view are disposed and restored during the history: law open_source_gone, refused OPEN stays \"already open\") on a temporary or CSV-file table of 0-50 rows, interleaved with INSERT/UPDATE/DELETE/COMMIT/ROLLBACK; offsets from {0, +-1, +-len, +-(len+-1), in range, just out of range, +-2^62, 2^63-1-len, +-(2^63-1), -2^63, maxint-pointer(+1), random 64 bit}; non-trivial = distinct (table kind, query, result-size class, pointer class, position, offset class, overflow, outcome, DML-since-OPEN) signature",
+        rule="scripted histories (RELATIVE +-2^63 from inside / before the result, empty result with every position, DML between OPEN and WHILE IN, clamping then PRIOR/NEXT, every error case) followed by random histories of DECLARE/OPEN/FETCH/WHILE IN (with BREAK, with DML on the underlying table inside the body)/CLOSE/DISPOSE/COUNT/IS [NOT] OPEN/IS [NOT] IN RANGE and structured programs (the life-cycle statements CLOSE / DISPOSE / shadowing DECLARE / re-OPEN / DISPOSE of the shadowing cursor and FETCH / status statements INSIDE a WHILE IN body — directly, in an IF block guarded by the iteration number, or in a function called from the body —, the loop itself inside a block that declares a shadowing cursor, and the same statements in a nested block at top level; the harness simulates blocks innermost-first with the loop fetching by name on every iteration and compares traces: laws while_in_disposed_is_error, while_in_closed_is_error, while_in_follows_current_binding, block_scoping) on up to 3 cursors (case-variant names) over 10 cursor sources (6 query shapes, cursors FOR a prepared statement without and with a placeholder — OPEN … USING k, also OPEN of an open one with another value —, a query with an observable side effect (@cnt := @cnt + 1 directly or through a user-defined function; law open_evaluates_once: one evaluation per accepted OPEN, none for a refused one), a cursor over a temporary view; the prepared statement / the view are disposed and restored during the history: law open_source_gone, refused OPEN stays \"already open\") ; FETCH / WHILE with a number of variables that differs from the cursor's columns (law fetch_length_mismatch: the pointer moves, error 11007 only when a row came back), the ABSOLUTE / RELATIVE number spelled as arithmetic, float, float-string and padded-string expressions, calls of a user-defined aggregate whose body works on its pseudo cursor and on the caller's cursors (law pseudo_cursor: OPEN / CLOSE / DISPOSE of it are error 11006), redundant CLOSEs; every statement runs under a watchdog (law cursor_operation_never_returns with the history as replay)) on a temporary or CSV-file table of 0-50 rows, interleaved with INSERT/UPDATE/DELETE/COMMIT/ROLLBACK; offsets from {0, +-1, +-len, +-(len+-1), in range, just out of range, +-2^62, 2^63-1-len, +-(2^63-1), -2^63, maxint-pointer(+1), random 64 bit}; non-trivial = distinct (table kind, query, result-size class, pointer class, position, offset class, overflow, outcome, DML-since-OPEN) signature",
         trusted_base=BASE_TRUST + ["extract/cursorfetch: go/parser + go/ast translation of (*Cursor).Fetch/IsInRange/Count/Open/Close/IsOpen/Pointer, CursorMap.Declare/AddPseudoCursor/Dispose and evalCursorStatus to Lean definitions, and of WhileInCursor / the delegating methods / the scope walks to effect lists (exits non-zero outside its subset; calls it does not review appear as tokens or parameters)", "Ref/CursorOps.lean: the hand-reviewed reading of the skeletons",
                                    "the harness' shadow evaluation of its fixed query shapes (table order, ORDER BY id [DESC], id % 2 = 0, LIMIT k, column swap, single column, id > k, the three rows of sv)"],
         checker_cmd="cd /verif && go -C extract/cursorfetch run . /repo/lib/query/cursor.go > lean/Csvq/Gen/CursorFetch.lean && cd lean && lake build Csvq.Props.C16 && lake env lean <#print axioms for every theorem>",
